@@ -127,6 +127,11 @@ type Replay struct {
 	LogHash   string           `json:"log_hash"`
 	Trace     []string         `json:"trace,omitempty"`
 	Program   []string         `json:"program,omitempty"` // the scenario rendered as source text, line by line
+	// Prelude: scenarios executed (outcomes ignored) in the same process before
+	// the scenario proper.  Needed when the violation depends on state that
+	// earlier scenarios left behind in the PROCESS (e.g. a process-wide cache
+	// that should have been per context).
+	Prelude []json.RawMessage `json:"prelude,omitempty"`
 	Note      string           `json:"note,omitempty"`
 }
 
